@@ -41,7 +41,7 @@ use crate::types::*;
 use itertools::Itertools;
 use log::trace;
 use regex::*;
-use std::collections::{HashMap, HashSet, VecDeque};
+use std::collections::{BTreeSet, HashMap, HashSet, VecDeque};
 
 pub fn is_c(header: &str) -> Result<bool> {
     Ok(Regex::new(
@@ -61,8 +61,8 @@ pub fn parse_header(header: &str, config: &Config) -> Result<String> {
         .map(|c| (c["trait"].to_string(), c["context"].to_string()))
         .collect::<Vec<_>>();
 
-    // Collect all contexts
-    let mut contexts = HashSet::new();
+    // Collect all contexts (ordered, so that the output does not depend on hashing)
+    let mut contexts = BTreeSet::new();
 
     for (cap, ctx) in &zst_rets {
         contexts.insert(ctx.clone());
@@ -624,7 +624,7 @@ static inline bool cb_count_{typename}(size_t *cnt, {typename} info) {{
 
 fn monomorphize_contexts(
     header: std::borrow::Cow<str>,
-    contexts: &HashSet<String>,
+    contexts: &BTreeSet<String>,
 ) -> Result<std::borrow::Cow<'static, str>> {
     // Replace all structs that end with _Context with N specifications that use individual context
     // Within them, replace all types that have _Context with the said context.
